@@ -96,7 +96,7 @@ void SimulateF100L::dump_registers()
 {
   printf("PC=0x%04x A=%d | F=%d M=%d C=%d S=%d V=%d Z=%d I=%d\n",
     get_pc(),
-    memory->read16(0),
+    accum,
     cr.get_f(),
     cr.get_m(),
     cr.get_c(),
